@@ -8,6 +8,7 @@ IDS = ["m%02d" % i for i in range(12)]
 ROUTES = ["r0", "r1", "r2"]
 TARGETS = ["t0", "t1"]
 REASONS = ["", "max_retries", "no_retry", "policy_denied", "boom"]
+EXTRA_REASONS = ["\tmax_retries ", "upstream reset\r\n", " boom"]      # twin of lib/queuecheck.py EXTRA_REASONS (scenario S17 only)
 STATES = ["queued", "leased", "delivered", "dead", "canceled"]
 
 
@@ -628,4 +629,19 @@ def gen_scenarios(rng):
         ops.append({"op": "enqueue_batch", "now": now + 3 * MS, "enq": [_enq("Z%04d" % j, body=7) for j in range(n)], "snap": True})   # the corrected batch goes in whole
         ops.append({"op": "stats", "now": now + 4 * MS, "snap": True})
         hs.append({"cfg": _cfg0(), "ops": ops, "snap_every": 1000, "c13_ok": True, "only": ["C02", "C13", "C12"]})
+    # S17: dead-letter reasons with white space around a non-blank core (an upstream error line ending in CR LF, a padded token), through
+    #      the single and the batch call: every backend keeps the reason as given
+    for k in range(2):
+        now = BASE + (617 + 131 * k) * SEC        # no draw from rng: the histories generated after the scenarios stay as they were
+        ops = [{"op": "enqueue", "now": now + j, "enq": [_enq("w%d" % j, body=170 + j)]} for j in range(4)]
+        ops.append({"op": "dequeue", "now": now + MS, "route": "", "target": "", "batch": 4, "ttl": 30 * SEC})
+        d0 = len(ops) - 1
+        if k == 0:
+            for j in range(3):
+                ops.append({"op": "lease", "now": now + 2 * MS + j, "kind": "dead", "dur": 0, "reason": EXTRA_REASONS[j], "lease": {"ref": [d0, j]}, "snap": True})
+        else:
+            ops.append({"op": "lease_batch", "now": now + 2 * MS, "kind": "dead", "dur": 0, "reason": EXTRA_REASONS[1], "leases": [{"ref": [d0, 0]}, {"ref": [d0, 1]}], "snap": True})
+            ops.append({"op": "lease", "now": now + 2 * MS + 1, "kind": "dead", "dur": 0, "reason": EXTRA_REASONS[0], "lease": {"ref": [d0, 2]}, "snap": True})
+        ops.append({"op": "stats", "now": now + 3 * MS, "snap": True})
+        hs.append({"cfg": _cfg0(), "ops": ops, "snap_every": 1, "c13_ok": True, "only": ["C13"]})
     return hs
